@@ -50,6 +50,10 @@ def run(ctx: Context) -> None:
     ctx.rule("C09d", "the NumPy and the JAX implementation of the Gaussian density-matrix recurrence (_entry_raising_ket / _entry_raising_bra) have the same pivot, initial term, loop summands and divisor (normal forms over abstract states and indices)")
     clause_d(ctx, idx)
     clause_e(ctx, idx)
+    ctx.rule("C09f", "the array handed to connector.assign is consumed: under the NumPy connector it is updated in place, under the functional "
+                     "connectors it keeps the old content, so after `B = connector.assign(A, ...)` neither A nor an alias of A is read again "
+                     "(ownership typestate on the CFG; shape/dtype reads are exempt)")
+    clause_f(ctx, idx)
 
 
 # ================================================================================================ (a)
@@ -699,3 +703,131 @@ def _clause_e_delegating(ctx: Context, idx, base) -> None:
                               "the factors differ from scipy.linalg.polar (the NumPy connector) for complex matrices",
                               mo.fmt(got))
     ctx.require_floor("C09e sides of delegating polar methods", n, 2)
+
+
+# ================================================================================================ (f)
+
+
+def _storage(e: ast.AST) -> Optional[str]:
+    """canonical text of a name / attribute chain; `x._name` and the property `x.name` are one storage"""
+    if isinstance(e, ast.Name):
+        return e.id
+    if isinstance(e, ast.Attribute):
+        b = _storage(e.value)
+        return None if b is None else f"{b}.{e.attr.lstrip('_')}"
+    return None
+
+
+def clause_f(ctx: Context, idx) -> None:
+    from .. import cfg as cfgmod
+    n_sites = 0
+    for fn in idx.all_functions(include_nested=True):
+        calls = [c for c in ast.walk(fn.node) if isinstance(c, ast.Call) and isinstance(c.func, ast.Attribute) and c.func.attr == "assign"
+                 and len(c.args) == 3 and _storage(c.args[0]) is not None]
+        if not calls:
+            continue
+        g = cfgmod.build(fn.node)
+        # alias classes from plain moves `N = A` / `N1, N2 = A1, A2`
+        moves: List[Tuple[str, str]] = []
+        stores: Dict[str, int] = {}
+        for a in walk_no_nested(fn.node):
+            if isinstance(a, ast.Assign):
+                for t in a.targets:
+                    pairs = [(t, a.value)]
+                    if isinstance(t, ast.Tuple) and isinstance(a.value, ast.Tuple) and len(t.elts) == len(a.value.elts):
+                        pairs = list(zip(t.elts, a.value.elts))
+                    for tt, vv in pairs:
+                        ts, vs = _storage(tt), _storage(vv)
+                        for x in (ast.walk(tt) if isinstance(tt, ast.Tuple) else [tt]):
+                            sx = _storage(x)
+                            if sx:
+                                stores[sx] = stores.get(sx, 0) + 1
+                        if ts and vs and isinstance(tt, ast.Name):
+                            moves.append((ts, vs))
+        alias: Dict[str, Set[str]] = {}
+        for t_, v_ in moves:
+            if stores.get(t_, 0) == 1:
+                alias.setdefault(v_, set()).add(t_)
+                alias.setdefault(t_, set()).add(v_)
+
+        def stmt_node_of(call: ast.Call):
+            for nd in g.nodes:
+                if nd.stmt is not None and any(x is call for x in cfgmod.own_nodes(nd)):
+                    return nd
+            return None
+
+        for call in calls:
+            nd = stmt_node_of(call)
+            if nd is None:
+                continue
+            n_sites += 1
+            a_txt = _storage(call.args[0])
+            target = None
+            if isinstance(nd.stmt, ast.Assign) and nd.stmt.value is call and len(nd.stmt.targets) == 1:
+                target = _storage(nd.stmt.targets[0])
+            stale = ({a_txt} | alias.get(a_txt, set())) - ({target} if target else set())
+            if not stale:
+                continue
+
+            def rebinds(n2, m: str) -> bool:
+                st = n2.stmt
+                if isinstance(st, ast.Assign):
+                    for t in st.targets:
+                        for x in ([t] + (list(t.elts) if isinstance(t, ast.Tuple) else [])):
+                            if _storage(x) == m:
+                                return True
+                if isinstance(st, (ast.For,)) and n2.kind == "loop":
+                    return any(_storage(x) == m for x in ast.walk(st.target))
+                return False
+
+            def stale_reads(n2, m: str) -> List[ast.AST]:
+                out = []
+                own = list(cfgmod.own_nodes(n2))
+                parents = {}
+                for x in own:
+                    for ch in ast.iter_child_nodes(x):
+                        parents[id(ch)] = x
+                for x in own:
+                    if isinstance(x, (ast.Name, ast.Attribute)) and isinstance(getattr(x, "ctx", None), ast.Load) and _storage(x) == m:
+                        par = parents.get(id(x))
+                        if isinstance(par, ast.Attribute) and par.attr in ("shape", "dtype", "ndim", "size") :
+                            continue
+                        if isinstance(par, ast.Call) and (dotted(par.func) or "") == "len":
+                            continue
+                        if isinstance(par, ast.Attribute):
+                            # `m.attr`: a read through m of another storage (state._C when m is `state`) is not a read of m
+                            continue
+                        out.append(x)
+                return out
+
+            for m in sorted(stale):
+                seen: Set[int] = set()
+                todo = [x for x, _ in g.succ[nd.id]]
+                hit = None
+                while todo and hit is None:
+                    cur = todo.pop()
+                    if cur in seen or cur in (cfgmod.EXIT, cfgmod.RAISE):
+                        continue
+                    seen.add(cur)
+                    n2 = g.nodes[cur]
+                    if cur == nd.id and m == a_txt:
+                        # a loop brings control back to the consuming statement: it starts again from the old array
+                        hit = (n2, call.args[0])
+                        break
+                    rd = stale_reads(n2, m)
+                    if rd:
+                        hit = (n2, rd[0])
+                        break
+                    if rebinds(n2, m):
+                        continue
+                    todo += [x for x, _ in g.succ[cur]]
+                key = f"{fn.qualname}|{norm(call.args[0])}->{target or 'expression'}|{m}"
+                ctx.obligation("C09f", key, hit is None, f"{ctx.relpath(fn.file)}:{call.lineno}")
+                if hit is not None:
+                    n2, rd = hit
+                    ctx.violation("C09f", key, fn.file, n2.line,
+                                  f"`{m}` is read after it was handed to connector.assign at line {call.lineno} (result bound to "
+                                  f"{target or 'nothing'}): with the NumPy connector the array was updated in place and the read sees the new "
+                                  "content, with the JAX / TensorFlow connectors it still has the old one, so the connectors compute different results",
+                                  norm(n2.stmt)[:160] if not isinstance(n2.stmt, (ast.If, ast.For, ast.While)) else norm(rd))
+    ctx.require_floor("C09f connector.assign sites", n_sites, 40)
